@@ -35,6 +35,11 @@ def looks_like_number(s):
 def spec_token(rng, kw, bangs):
     """(text, expected kind predicate description, kind name or prefix)"""
     c = rng.choice(["id", "id", "kw", "dec", "hex", "bin", "str", "code", "var", "bang", "punct"])
+    if c == "id" and rng.random() < 0.25:
+        # identifiers next to the integer syntax: digits, then a letter that is not the start of a hex/binary literal
+        s = rng.choice(["0b2", "0b9", "0b2a", "0b7_lane", "0b35x", "0b_", "0bz", "0b", "0x", "0xg", "0xG1", "0x_1", "00b1", "00x1", "10b1", "1x1",
+                        "0B1", "0X1", "0o7", "9z", "0_", "4abc", "00b2", "0bb", "0xx", "0bx1"])
+        return s, "Id"
     if c == "id":
         while True:
             s = rand_ident(rng)
